@@ -179,6 +179,20 @@ pub fn run_c10(out: &mut Out, tier: &str, seed: u64) {
             }
         }
     }
+    // documents that repeat member names: every lookup variant answers with the first occurrence
+    let cfgd = Cfg { dup_free: false, ..docs_cfg() };
+    for i in 0..ndocs / 3 {
+        let g = gen::gen_doc(&mut rng, &cfgd);
+        let g = if i % 2 == 0 { repeat_members(&g, &mut rng) } else { g };
+        let doc = gen::render_doc(&g, &mut rng, &cfgd);
+        let mut paths = Vec::new();
+        gen::all_paths(&g, &mut Vec::new(), &mut paths);
+        out.count("get:repeated-names");
+        for _ in 0..paths.len().min(6) {
+            let p = paths[rng.below(paths.len())].clone();
+            get_variants(out, &doc, &p, true);
+        }
+    }
     // strings full of structural bytes / quotes / backslashes straddling the 64-byte blocks of the
     // bitmap skipper (skip_container) - reached through the unchecked variants
     block_edge_docs(out, &mut rng, if tier == "thorough" { 3000 } else { 400 });
@@ -225,10 +239,12 @@ fn block_edge_docs(out: &mut Out, rng: &mut Rng, n: usize) {
 pub fn run_c14(out: &mut Out, tier: &str, seed: u64) {
     let mut rng = Rng::new(seed);
     let ndocs = if tier == "thorough" { 10000 } else { 1200 };
-    let cfg = docs_cfg();
-    for _ in 0..ndocs {
-        let g = gen::gen_doc(&mut rng, &cfg);
-        let doc = gen::render_doc(&g, &mut rng, &cfg);
+    let (cfg0, cfgd) = (docs_cfg(), Cfg { dup_free: false, ..docs_cfg() });
+    for i in 0..ndocs {
+        // one document in three may repeat member names
+        let cfg = if i % 3 == 2 { &cfgd } else { &cfg0 };
+        let g = gen::gen_doc(&mut rng, cfg);
+        let doc = gen::render_doc(&g, &mut rng, cfg);
         let (bad, label) = gen::mutate(&doc, &mut rng);
         out.count(&format!("mut:{label}"));
         let mut paths = Vec::new();
